@@ -7,7 +7,7 @@ ASSUMPTIONS = [
     "leg B: twin runs of the real models, factors 2^-10..2^10 and 1e-3..1e3; tolerance 1e-9 (rounding differs for factors that are no power of two)",
 ]
 CLAUSES = {
-    "Cl_ScaleOutcome": "scaling by an exact factor (a power of two) is the same computation: the scaled run returns exactly when the original does",
+    "Cl_ScaleOutcome": "scaling area and amount - or trading area against step length without a programme - by an exact factor (a power of two) is the same computation: the twin returns exactly when the original does",
     "Cl_PairRel": "scale: intensive series equal, masses and heats times k; trade (no programme): every per-step state equal; "
                   "other area/amount/step: fluxes at step 0 equal",
     "Cl_MetricsRel": "separation factor, selectivity and PSI series equal", "Ref_TwinOutcome": "DRIFT: both runs return or both raise",
